@@ -224,21 +224,22 @@ Definition ex_two : sstate :=
   let st2 := fst (ex_step true st1 (EDns 1000 0 (ex_L ex_A 0 777))) in
   let st3 := fst (ex_step true st2 (EDns 1001 888 (ex_V ex_B))) in
   fst (ex_step true st3 (EDns 1001 0 (ex_L ex_B 1 888))).
+Definition ex_sig0 := (sec (user_init 0), 0, 0, 0).
 Definition ex_tun (dst : N) : list N := repeat 7 20 ++ [dst mod 256; (dst / 256) mod 256; (dst / 65536) mod 256; dst / 16777216] ++ [1; 2; 3].
 
 Example C04_example :
   ex_flags ex_two 0 = (true, true, 777, 1000) /\ ex_flags ex_two 1 = (true, true, 888, 1001) /\
   (* B pings with A's userid: BADIP, nothing changes; A's own ping is accepted *)
-  ex_step true ex_two (EDns 1002 0 (ex_P ex_B 0)) = (ex_two, [mk_answer (ex_P ex_B 0) s_BADIP 84]) /\
-  fst (ex_step true ex_two (EDns 1002 0 (ex_P ex_A 0))) <> ex_two /\
+  ex_res (ex_step true ex_two (EDns 1002 0 (ex_P ex_B 0))) = (ex_sig ex_two, [mk_answer (ex_P ex_B 0) s_BADIP 84]) /\
+  ex_sig (fst (ex_step true ex_two (EDns 1002 0 (ex_P ex_A 0)))) <> ex_sig ex_two /\
   (* a tun packet for B's tunnel address reaches slot 1 only; one for nobody's is dropped; a short one too *)
   route ex_two 1002 (ex_tun (u_tun_ip (getu ex_two 1))) = Some 1%nat /\
   (let st' := fst (ex_step true ex_two (ETun 1002 (ex_tun (u_tun_ip (getu ex_two 1))))) in
-   getu st' 0 = getu ex_two 0 /\ p_len (u_out (getu st' 1)) = 28 /\ p_len (u_out (getu ex_two 1)) = 0) /\
-  ex_step true ex_two (ETun 1002 (ex_tun 134744072)) = (ex_two, []) /\
-  ex_step true ex_two (ETun 1002 (firstn 23 (ex_tun (u_tun_ip (getu ex_two 1))))) = (ex_two, []) /\
+   nth 0 (ex_sig st') (ex_sig0) = nth 0 (ex_sig ex_two) ex_sig0 /\ p_len (u_out (getu st' 1)) = 28 /\ p_len (u_out (getu ex_two 1)) = 0) /\
+  ex_res (ex_step true ex_two (ETun 1002 (ex_tun 134744072))) = (ex_sig ex_two, []) /\
+  ex_res (ex_step true ex_two (ETun 1002 (firstn 23 (ex_tun (u_tun_ip (getu ex_two 1)))))) = (ex_sig ex_two, []) /\
   (* 60 s after B's last request the packet is no longer routed; 61 s after, B's ping is refused *)
-  ex_step true ex_two (ETun 1061 (ex_tun (u_tun_ip (getu ex_two 1)))) = (ex_two, []) /\
-  fst (ex_step true ex_two (EDns 1061 0 (ex_P ex_B 1))) <> ex_two /\
-  ex_step true ex_two (EDns 1062 0 (ex_P ex_B 1)) = (ex_two, [mk_answer (ex_P ex_B 1) s_BADIP 84]).
+  ex_res (ex_step true ex_two (ETun 1061 (ex_tun (u_tun_ip (getu ex_two 1))))) = (ex_sig ex_two, []) /\
+  ex_sig (fst (ex_step true ex_two (EDns 1061 0 (ex_P ex_B 1)))) <> ex_sig ex_two /\
+  ex_res (ex_step true ex_two (EDns 1062 0 (ex_P ex_B 1))) = (ex_sig ex_two, [mk_answer (ex_P ex_B 1) s_BADIP 84]).
 Proof. vm_compute. repeat split; try reflexivity; discriminate. Qed.
